@@ -19,7 +19,11 @@ TRICKY = ['T154N-R97W Section: NE/4', 'Section NE/4 T154N-R97W', 'T154N-R97W Sec
           'Sections 4 - 6 of Township 154 North, Range 97 West', 'T154N-R97W Sec 14: ' + 'NE/4 ' * 20, '§§§ 14', 'T154N-R97W\x0bSec\x1c14:\x85NE/4',
           'Township ١٥٤ North, Range ٩٧ West Sec ١٤', 'Sec 14 thru', 'Sec 5 - 5: NE/4 T154N-R97W', 'Lots 1 - 400', 'Sec 999 - 990 T1N-R1W',
           'Lot 4(40.12), Lot 4(40.12), S/2NW/4', 'Lots 1(38.29), 2(40.00) and 1(38.30)', 'T154N-R97W Sec 14: Lot 1(40), Lot 1(41)', 'Lot 1(40), NE/4, Lot 1(40)',
-          'Lots 3 - 1(40), 2(39.5)', 'N/2 of Lot 1(40), N/2 of Lot 1(40)', 'T154N-R97W of Section 14: NE/4', 'T154N-R97W in said Section 14 NE/4']
+          'Lots 3 - 1(40), 2(39.5)', 'N/2 of Lot 1(40), N/2 of Lot 1(40)', 'T154N-R97W of Section 14: NE/4', 'T154N-R97W in said Section 14 NE/4',
+          # digit runs beyond CPython's 4300-digit limit on str -> int conversion, wherever a number is read
+          'T154N-R97W Sec ' + '1' * 4301 + ': NE/4', 'NE/4 of Section 14 - ' + '1' * 4301 + ', T154N-R97W', 'T154N-R97W Sec 14: Lots 1 - ' + '2' * 4400,
+          'T' + '1' * 4301 + 'N-R97W Sec 14: NE/4', 'T154N-R' + '9' * 4302 + 'W Sec 14: NE/4', 'Lot ' + '3' * 4301 + '(40.00)', 'T154N-R97W Sec 14: Lot 1(' + '4' * 4301 + ')',
+          'Sec ' + '0' * 4301 + '1 T154N-R97W']
 
 
 def rand_config(r):
@@ -70,6 +74,16 @@ def run(tier, mode):
         lots = [r.randint(1, 4) for _ in range(r.randint(2, 5))]
         texts.append(r.choice(['', 'T154N-R97W Sec 14: ']) + r.choice([', ', ' and ', '; ']).join(
             f'{r.choice(["Lot", "Lots", "N/2 of Lot"])} {x}' + (f'({r.choice(["40", "38.29", "40.00", "0"])})' if r.random() < 0.7 else '') for x in lots))
+    # halves followed by a quarter in every spelling the half-plus-quarter scrubber accepts (hyphenated, 'Nort'/'Sout', dotted, spaced),
+    # ending at every terminator its look-ahead accepts
+    for _ in range(n // 5):
+        q = r.choice(['N', 'Nort', 'North', 'S', 'Sout', 'South']) + r.choice(['', ' ', '-', '  ', ' - ', '--']) + r.choice(['East', 'West'])
+        if r.random() < 0.3:
+            q = r.choice(['N', 'S']) + r.choice(['', ' ', '  ', '.', '. ']) + r.choice(['E', 'W']) + r.choice(['', '.'])
+        if r.random() < 0.3:
+            q = r.choice([q.upper(), q.lower()])
+        t = r.choice(['N', 'S', 'E', 'W']) + r.choice(['/2', '½', ' 1/2', '2']) + r.choice([' ', ' of ', ' of the ', '', ' of the\n']) + q + r.choice(['', ' ', '.', ',', ';', ' and Lot 1', ' N½', 'NE¼'])
+        texts.append(r.choice(['', 'T154N-R97W Sec 14: ', 'Lots 1 - 3, and the ']) + t)
     # the one situation theorem C03_plss_parser_raises leaves open: a Twp/Rge match starting or ending exactly where a section match starts.
     # Tokens glued together without blanks aim at it; `glued_pp` counts the preprocessed texts in which it occurs.
     for _ in range(n // 4):
